@@ -525,6 +525,7 @@ func (e *Env) RunOp(proc, i int, s Step) (res OpResult) {
 		in.ClientOnly = flagB(f, "clientOnly")
 		in.CreateNamespace = flagB(f, "createNamespace")
 		in.SkipCRDs = flagB(f, "skipCRDs")
+		in.IncludeCRDs = flagB(f, "includeCRDs") && (flagB(f, "dryRun") || flagS(f, "dryRunOption") != "") // (helm template only)
 		in.Force = flagB(f, "force")
 		in.Timeout = timeout
 		in.WaitStrategy = kube.StatusWatcherStrategy // the scenarios are "helm ... --wait"
